@@ -81,11 +81,12 @@ Theorem C17_do_import loader fs ls b imp b' :
   do_import loader fs ls b imp = Ok b' ->
   exists ms gb kept,
     lookup_module (fst imp) fs = Some ms /\
-    loader ((join "__" (fst imp), snd imp) :: ls) ms = Ok gb /\
+    loader (b_next b) ((join "__" (fst imp), snd imp) :: ls) ms = Ok gb /\
     (forall d, In d kept <-> In d (b_defs gb) /\
         Reach (b_defs gb) (map (mangle ((join "__" (fst imp), snd imp) :: ls)) (map fst (snd imp))) (d_name d)) /\
     (forall d, In d kept -> defined (d_name d) (b_defs b) = false) /\
-    b_defs b' = (b_defs b ++ kept)%list /\ b_ignore b' = b_ignore b.
+    b_defs b' = (b_defs b ++ kept)%list /\ b_ignore b' = b_ignore b /\
+    b_heap b' = (b_heap b ++ b_heap gb)%list.
 Proof. exact (do_import_spec loader fs ls b imp b'). Qed.
 Print Assumptions C17_do_import.
 
@@ -94,7 +95,7 @@ Print Assumptions C17_do_import.
    the body renamed) of the module's rules reachable from the imported names *)
 Theorem C17_import_is_inlining_partial f fs g ls b p al ds b' :
   lookup_module p fs = Some (map (SDef KDefine) ds) ->
-  do_import (fun ls' ms => load (S f) fs g ls' ms empty_builder) fs ls b (p, al) = Ok b' ->
+  do_import (fun next ls' ms => load (S f) fs g ls' ms (fresh_builder next)) fs ls b (p, al) = Ok b' ->
   let ls' := (join "__" p, al) :: ls in
   exists gdefs kept,
     Forall2 same_shape (map (fun d => norm_def g (mangle_def ls' d)) ds) gdefs /\
@@ -115,11 +116,11 @@ Definition rename_def (f : string -> string) (d : defn) : defn :=
 Definition C17_import_is_inlining_full_statement : Prop :=
   forall f fs g ls b p al ms b' gb0,
     lookup_module p fs = Some ms ->
-    do_import (fun ls' ms => load f fs g ls' ms empty_builder) fs ls b (p, al) = Ok b' ->
+    do_import (fun next ls' ms => load f fs g ls' ms (fresh_builder next)) fs ls b (p, al) = Ok b' ->
     load f fs g [] ms empty_builder = Ok gb0 ->
     exists kept0,
-      (forall d, In d kept0 <-> In d (b_defs gb0) /\ Reach (b_defs gb0) (map fst al) (d_name d)) /\
-      b_defs b' = (b_defs b ++ map (rename_def (mangle ((join "__" p, al) :: ls))) kept0)%list.
+      (forall d, In d kept0 <-> In d (export gb0) /\ Reach (b_defs gb0) (map fst al) (d_name d)) /\
+      export b' = (export b ++ map (rename_def (mangle ((join "__" p, al) :: ls))) kept0)%list.
 
 (* no capture: a private name of an imported module is never spelled like itself after mangling;
    a contributed name that is already defined is an error (EClash), and so is a later local
@@ -132,7 +133,7 @@ Print Assumptions C17_no_capture.
 
 Theorem C17_import_clash_is_error loader fs ls b imp ms gb kept d :
   lookup_module (fst imp) fs = Some ms ->
-  loader ((join "__" (fst imp), snd imp) :: ls) ms = Ok gb ->
+  loader (b_next b) ((join "__" (fst imp), snd imp) :: ls) ms = Ok gb ->
   remove_unused (b_defs gb) (map (mangle ((join "__" (fst imp), snd imp) :: ls)) (map fst (snd imp))) = Ok kept ->
   In d kept -> defined (d_name d) (b_defs b) = true ->
   do_import loader fs ls b imp = Err EClash.
@@ -166,6 +167,31 @@ Theorem C17_override_replaces g d l l' :
   (forall n, n <> d_name d -> find_def n l' = find_def n l).
 Proof. exact (override_replaces g d l l'). Qed.
 Print Assumptions C17_override_replaces.
+
+(* terminals: the tree of a terminal definition is an OBJECT that other terminals built from it hold by
+   reference (resolve_term_references).  %extend changes the object in place, so the terminals built
+   from it - also those imported earlier - see the new alternative, as they do in the grammar written
+   out by hand ... *)
+Theorem C17_extend_term_in_place d b b' old o base exp :
+  extend_stmt d b = Ok b' ->
+  find_def (d_name d) (b_defs b) = Some old -> d_tree old = Some (Ptr o) ->
+  hget o (b_heap b) = Some base -> d_tree d = Some exp ->
+  hget o (b_heap b') = Some (add_alternative exp base) /\
+  (forall o', o' <> o -> hget o' (b_heap b') = hget o' (b_heap b)) /\
+  map d_name (b_defs b') = map d_name (b_defs b) /\
+  (forall n, option_map d_tree (find_def n (b_defs b')) = option_map d_tree (find_def n (b_defs b))) /\
+  b_ignore b' = b_ignore b.
+Proof. exact (extend_term_in_place d b b' old o base exp). Qed.
+Print Assumptions C17_extend_term_in_place.
+
+(* ... whereas %override of a terminal makes a new object and leaves the old one to those who hold it *)
+Theorem C17_override_term_fresh_object g d b b' t :
+  d_term d = true -> d_tree d = Some t -> define_stmt g true d b = Ok b' ->
+  b_heap b' = (b_next b, t) :: b_heap b /\
+  find_def (d_name d) (b_defs b') =
+    Some (norm_def g (mkDef (d_name d) true (Some (Ptr (b_next b))) (d_params d) (d_opts d))).
+Proof. exact (override_term_fresh_object g d b b' t). Qed.
+Print Assumptions C17_override_term_fresh_object.
 
 (* ---- templates --------------------------------------------------------------------------------- *)
 Theorem C17_template_is_substitution created rds name args created' rds' rn :
@@ -229,6 +255,7 @@ Definition ex_fs : module_files := [(["m"], ex_m)].
 Example C17_example :
   exists b, load_and_validate 8 ex_fs false ex_main = Ok b /\
     map d_name (b_defs b) = ["a"; "m__b"; "m__f"; "m__Y"; "start"; "f"; "b"] /\
+    find_def "m__Y" (export b) = Some (mkDef "m__Y" true (Some (alts [[lit """y"""]])) [] (OTerm 0)) /\
     find_def "m__b" (b_defs b) = Some (mkDef "m__b" false (Some (alts [[lit """b"""]])) [] (ORule false false None None)) /\
     find_def "b" (b_defs b) = Some (mkDef "b" false (Some (alts [[lit """c"""]])) [] (ORule false false None None)) /\
     (exists d, find_def "m__f" (b_defs b) = Some d /\ d_params d = ["m__t"] /\
@@ -253,3 +280,42 @@ Proof.
   eexists. eexists. split. vm_compute. reflexivity.
   vm_compute. repeat split. discriminate.
 Qed.
+
+(*  units.lark:  UNIT: "cm" | "mm"     LENGTH: /\d+/ UNIT     length: LENGTH
+    main:        start: length UNIT    %import units (length, UNIT)    %extend UNIT: "km"  *)
+Definition re (s : string) : tree := Nd "value" [Nd "literal" [Tk s]].
+Definition ex_units : list stmt :=
+  [ tm "UNIT" (alts [[lit """cm"""]; [lit """mm"""]]);
+    tm "LENGTH" (alts [[re "/\d+/"; ref true "UNIT"]]);
+    rl "length" [] (alts [[ref true "LENGTH"]]) ].
+Definition ex_units_main (k : defkind) : list stmt :=
+  [ rl "start" [] (alts [[ref false "length"; ref true "UNIT"]]);
+    SImport ["units"] [("length", "length"); ("UNIT", "UNIT")];
+    SDef k (mkDef "UNIT" true (Some (alts [[lit """km"""]])) [] (OTerm 0)) ].
+
+(* %extend of the imported UNIT is seen inside the imported LENGTH (pulled in as a dependency of
+   length), exactly as in the grammar written out by hand *)
+Example C17_extend_terminal_is_seen :
+  exists b, load_and_validate 8 [(["units"], ex_units)] false (ex_units_main KExtend) = Ok b /\
+    find_def "units__LENGTH" (export b) =
+      Some (mkDef "units__LENGTH" true
+              (Some (alts [[re "/\d+/";
+                            Nd "value" [Nd "expansions" [alts [[lit """km"""]];   (* the %extend body, inserted in front *)
+                                                         Nd "expansion" [lit """cm"""];
+                                                         Nd "expansion" [lit """mm"""]]]]])) [] (OTerm 0)).
+Proof. eexists. split. vm_compute. reflexivity. vm_compute. reflexivity. Qed.
+
+(* REFUTED for %override (finding F35, replayed by the exotic stream of harness/props/C17.py): the
+   imported LENGTH keeps the overridden UNIT's old tree; by hand it would be (km) *)
+Theorem C17_override_terminal_refuted :
+  exists fs main b,
+    load_and_validate 8 fs false main = Ok b /\
+    find_def "UNIT" (export b) = Some (mkDef "UNIT" true (Some (alts [[lit """km"""]])) [] (OTerm 0)) /\
+    find_def "units__LENGTH" (export b) =
+      Some (mkDef "units__LENGTH" true
+              (Some (alts [[re "/\d+/"; Nd "value" [alts [[lit """cm"""]; [lit """mm"""]]]]])) [] (OTerm 0)).
+Proof.
+  exists [(["units"], ex_units)], (ex_units_main KOverride). eexists. split. vm_compute. reflexivity.
+  vm_compute. split; reflexivity.
+Qed.
+Print Assumptions C17_override_terminal_refuted.
